@@ -9,13 +9,14 @@ from .seqengine import xh, unxh
 
 
 class Client(H.Server):
-    def __init__(self, services="api,handlers,generators,commands", path=None):
+    def __init__(self, services="api,handlers,generators,commands", path=None, env=None):
         if path is None:
-            super().__init__(services)
+            super().__init__(services, env=env)
         else:   # restart on an existing store
             self.wd, self.path = os.path.dirname(path), path
             self.p = subprocess.Popen([build.XSV, "serve", self.path, services], stdin=subprocess.PIPE,
-                                      stdout=subprocess.PIPE, stderr=subprocess.PIPE, text=True, bufsize=1)
+                                      stdout=subprocess.PIPE, stderr=subprocess.PIPE, text=True, bufsize=1,
+                                      env=dict(os.environ, **(env or {})))
             if "READY" not in self.p.stdout.readline():
                 raise RuntimeError("server did not restart")
             self.sock = os.path.join(self.path, "sock")
@@ -78,7 +79,7 @@ class Client(H.Server):
 
 # ---- handler script DSL ----------------------------------------------------------------------
 def nu_str(s):
-    return json.dumps(s)
+    return json.dumps(s, ensure_ascii=False)
 
 
 def render_handler(p):
@@ -152,7 +153,7 @@ def model_handler(conf, p, delivered):
     for a in p.get("appends", []):
         meta = json.dumps(a["meta"], separators=(",", ":")) if a.get("meta") is not None else None
         prog += f" A {xh(a['topic'])} {xh(meta) if meta else '-'} {ttl_tok(a.get('ttl'))} " \
-                f"{H.hex32(a['ctx']) if a.get('ctx') is not None else '-'} {xh(json.dumps(a['content']))}"
+                f"{H.hex32(a['ctx']) if a.get('ctx') is not None else '-'} {xh(a['content'])}"
     lines.append(prog)
     for f in delivered:
         hid = None
@@ -172,19 +173,25 @@ def model_handler(conf, p, delivered):
         if t[0] == "E":
             emitted.append(dict(topic=unxh(t[1]).decode(), ctx=int(t[2], 16), hid=int(t[3], 16), fid=int(t[4], 16), ttl=t[5],
                                 content=unxh(t[6]) if t[6] != "-" else None,
-                                meta=json.loads(unxh(t[7])) if t[7] != "-" else None, err=t[8] == "1"))
+                                meta=strip_stamps(json.loads(unxh(t[7]))) if t[7] != "-" else None, err=t[8] == "1"))
         elif t[0] == "SEEN":
             seen.append(int(t[1], 16))
     return emitted, seen
 
 
-def observed_outputs(cl, frames, hid):
+def strip_stamps(m):
+    """the dispatcher overwrites these keys whatever the script put there"""
+    u = {k: v for k, v in m.items() if k not in ("handler_id", "frame_id")}
+    return u or None
+
+
+def observed_outputs(cl, frames, hid, exclude=()):
     """frames the real handler `hid` appended, in id order, in the model's vocabulary"""
     out = []
     hs = H.id_to_s(hid)
     for f in frames:
         m = f["meta"]
-        if m and m.get("handler_id") == hs and not f["topic"].endswith(".registered"):
+        if m and m.get("handler_id") == hs and not f["topic"].endswith(".registered") and f["id"] not in exclude:
             user = {k: v for k, v in m.items() if k not in ("handler_id", "frame_id", "error")}
             fid = None
             try:
@@ -195,3 +202,156 @@ def observed_outputs(cl, frames, hid):
                             content=cl.cas(f["hash"]) if f["hash"] else None,
                             meta=user or None, err="error" in m))
     return out
+
+
+# ---- handler scenarios -------------------------------------------------------------------------
+TRIG_TOPICS = ["trig", "side", "other", "t0", "t1", "t2"]
+
+
+def gen_prog(r, name, ctxs, k=0):
+    """topic graph is acyclic (trig/t<k> -> side -> aux/note) except for the self-loop on the
+    handler's own guard topic, which its stamp must break (C14: never its own output)"""
+    own = f"t{k}"
+    guard = r.choice(["trig", "trig", own, "side"])
+    outs = ["aux", name + ".note"] if guard == "side" else ["side", "aux", name + ".note", guard if guard == own else "side"]
+    appends = []
+    for _ in range(r.choice([0, 0, 1, 2, 3])):
+        appends.append(dict(
+            topic=r.choice(outs),
+            meta=r.choice([None, None, {"k": 1}, {"handler_id": "zzz", "frame_id": "yyy", "u": "v"}, {"n": 7, "s": "t"}]),
+            ttl=r.choice([None, None, "forever", "time:600000"]),
+            ctx=r.choice([None, None] + ctxs),
+            content=r.choice(["c1", "héllo wörld", "x" * 300])))
+    fail = r.choices(["none", "before", "after", "between"], [8, 1, 1, 1])[0]
+    if fail == "between":
+        fail = f"between:{r.randrange(0, len(appends) + 1)}"
+    return dict(guard=guard, appends=appends,
+                ret=r.choice(["nothing", "count", "count", "str:pong", "int:42", "topic"]),
+                fail=fail, resume=r.choice(["tail", "tail", "head", "after"]),
+                suffix=r.choice([None, None, ".x", ".reply"]), ttl=r.choice([None, None, "time:600000", "forever"]))
+
+
+def run_handler_scenario(seed, n_events=14):
+    """-> dict(violations=[...], n_handlers, n_triggers, n_outputs, detail)"""
+    r = random.Random(seed)
+    cl = Client("api,handlers")
+    report = dict(seed=seed, violations=[], instances=0, triggers=0, outputs=0, invocations=0, script_samples=[])
+    try:
+        ctxs = [0]
+        for _ in range(r.choice([0, 1, 1, 2])):
+            c = cl.append("xs.context")
+            if c:
+                ctxs.append(c)
+        instances = []   # dict(id, ctx, name, prog, kind)
+        forged = set()
+        # some history before any handler exists
+        pre = []
+        for _ in range(r.choice([0, 2, 4])):
+            i = cl.append(r.choice(TRIG_TOPICS), ctx=r.choice(ctxs), body=b"pre")
+            if i:
+                pre.append(i)
+
+        def register(name, ctx):
+            kind = r.choices(["ok", "parse_error", "no_arg"], [10, 1, 1])[0]
+            if kind == "ok":
+                p = gen_prog(r, name, ctxs, len(instances))
+                if p["resume"] == "after":
+                    p["resume"] = H.id_to_s(r.choice(pre)) if pre else "head"
+                script = render_handler(p)
+            elif kind == "parse_error":
+                p, script = None, "{ run: {|frame| "
+            else:
+                p, script = None, "{ run: {|| 42 } }"
+            hid = cl.append(name + ".register", ctx=ctx, body=script.encode())
+            if hid is None:
+                return
+            inst = dict(id=hid, ctx=ctx, name=name, prog=p, kind=kind)
+            instances.append(inst)
+            if len(report["script_samples"]) < 2:
+                report["script_samples"].append(script[:400])
+            if kind == "ok":
+                reg = cl.wait_topic(name + ".registered", ctx=ctx, after=hid)
+                inst["registered"] = reg["id"] if reg else None
+                if reg is None:
+                    # a script the model considers valid did not start: look for the reason
+                    inst["kind"] = "did_not_start"
+            else:
+                cl.wait_topic(name + ".unregistered", ctx=ctx, after=hid)
+
+        register("h1", r.choice(ctxs))
+        for _ in range(n_events):
+            k = r.choices(["trig", "other", "register", "unregister", "forged", "burst"], [8, 3, 2, 1, 1, 1])[0]
+            if k == "trig":
+                cl.append(r.choice(["trig", "trig", "side", "t0", "t1"]), ctx=r.choice(ctxs), body=b"t"); report["triggers"] += 1
+            elif k == "other":
+                cl.append(r.choice(TRIG_TOPICS), ctx=r.choice(ctxs))
+            elif k == "register":
+                register(r.choice(["h1", "h1", "h2"]), r.choice(ctxs))
+            elif k == "unregister" and instances:
+                inst = r.choice(instances)
+                cl.append(inst["name"] + ".unregister", ctx=r.choice([inst["ctx"], inst["ctx"], r.choice(ctxs)]))
+            elif k == "forged" and instances:
+                inst = r.choice(instances)   # a foreign frame carrying the handler's id in its meta is skipped like own output
+                fid = cl.append("trig", ctx=inst["ctx"], meta={"handler_id": H.id_to_s(inst["id"])})
+                forged.add(fid)
+            elif k == "burst":
+                for _ in range(5):
+                    cl.append("trig", ctx=r.choice(ctxs), body=b"b"); report["triggers"] += 1
+        cl.settle()
+        fr = cl.frames()
+        report["instances"] = len(instances)
+        for inst in instances:
+            hs = H.id_to_s(inst["id"])
+            obs = observed_outputs(cl, fr, inst["id"], forged)
+            report["outputs"] += len(obs)
+            if inst["kind"] in ("parse_error", "no_arg", "did_not_start"):
+                unreg = [o for o in obs if o["topic"] == inst["name"] + ".unregistered"]
+                if inst["kind"] == "did_not_start":
+                    report["violations"].append(dict(what=f"handler {inst['name']} with a valid script was never announced as registered",
+                                                     script=render_handler(inst["prog"]), outputs=[str(o)[:200] for o in obs][:3]))
+                elif len(unreg) != 1 or not unreg[0]["err"] or len(obs) != 1:
+                    report["violations"].append(dict(what=f"invalid handler script must yield exactly one {inst['name']}.unregistered "
+                                                          f"carrying the error; got {[o['topic'] for o in obs]}"))
+                continue
+            p = inst["prog"]
+            if p["resume"] == "head":
+                start = 0
+            elif p["resume"] == "tail":
+                start = inst["registered"]
+            else:
+                start = H.s_to_id(p["resume"])
+            delivered = [f for f in fr if f["ctx"] == inst["ctx"] and f["id"] > start]
+            em, seen = model_handler(dict(id=inst["id"], ctx=inst["ctx"], name=inst["name"]), p, delivered)
+            report["invocations"] += len(seen)
+            if em != obs:
+                k = next((i for i, (a, b) in enumerate(zip(em, obs)) if a != b), min(len(em), len(obs)))
+                report["violations"].append(dict(
+                    what=f"handler {inst['name']} (context {'zero' if inst['ctx'] == 0 else 'non-zero'}, resume {p['resume'][:6]}) "
+                         f"appended {len(obs)} frames, the dispatch model replayed on the same stream gives {len(em)}; first difference at #{k}: "
+                         f"impl {str(obs[k])[:260] if k < len(obs) else 'nothing'} vs model {str(em[k])[:260] if k < len(em) else 'nothing'}",
+                    script=render_handler(p), handler_id=hs))
+        return report
+    finally:
+        cl.close()
+
+
+def announce_race(delay_ms=400):
+    """C16: once <name>.registered is visible the handler must be subscribed. The serve task is held
+    at its entry (sync point handler.serve.enter) so that the announce overtakes the subscription;
+    a client that appends as soon as it sees .registered must still be served."""
+    cl = Client("api,handlers", env={"XSV_HOOK_SLEEP": f"handler.serve.enter:{delay_ms}"})
+    try:
+        script = '{ resume_from: "tail", run: {|frame| if $frame.topic != "trig" { return }; "pong" } }'
+        hid = cl.append("h.register", body=script.encode())
+        reg = cl.wait_topic("h.registered", after=hid)
+        if reg is None:
+            return dict(error="never registered")
+        t = cl.append("trig", body=b"now")          # appended on sight of .registered
+        time.sleep(delay_ms / 1000 + 0.3)
+        t2 = cl.append("trig", body=b"later")       # control: certainly after the subscription
+        cl.settle()
+        outs = [f for f in cl.frames() if f["topic"] == "h.out"]
+        fids = [H.s_to_id(f["meta"]["frame_id"]) for f in outs if f["meta"]]
+        return dict(first_served=t in fids, control_served=t2 in fids, n_out=len(outs))
+    finally:
+        cl.close()
